@@ -10,6 +10,7 @@
   PART D  the local violation, one lemma per mutation class; `mutated_rejected`.
   PART E  witnesses: what the shipped specification accepts although a reading of the rules could call it a violation.
 -/
+import Parsley.Props.C10Full
 import Parsley.Lemmas.CatalogDicts
 import Parsley.Lemmas.CatalogDate
 import Parsley.Lemmas.CatalogValues
@@ -169,16 +170,6 @@ theorem inv_disj {g : Graph} {ctx : Ctx} {o : Obj} {c : Chk} {a : Attr} {os : Ch
   simpa [shapeOK] using this
 
 /-! ### PART B: a direct value conforming to the shipped entry of a key has the kind of the rules -/
-
-theorem eval_untag : ∀ (p : Pred) (o : Obj), p.eval o = (untag p).eval o
-  | .tagged _ p, o => by simp only [untag, Pred.eval]; exact eval_untag p o
-  | .choice _, _ => rfl
-  | .refArray, _ => rfl
-  | .never, _ => rfl
-  | .always, _ => rfl
-  | .nameTree, _ => rfl
-  | .numTree _, _ => rfl
-  | .date, _ => rfl
 
 theorem isPrim_elim {c : Chk} {t : Prim} {ind : Ind} {p : Option Pred} (h : isPrim c t ind p = true) :
     ∃ a, c = .prim a t ∧ a.ind = ind ∧ a.pred.map untag = p := by
